@@ -80,20 +80,20 @@ func c48Old(n int) string {
 func c48Scenarios() []c48Scn {
 	var s []c48Scn
 	for _, n := range []int{1, 100, 4095, 4096, 65537, 1 << 20} {
-		s = append(s, c48Scn{Name: fmt.Sprintf("fmt-%dB", n), Cmd: "fmt", Files: map[string]string{"f.d2": c48FmtInput(n)}, Args: []string{"fmt", "f.d2"}, Targets: []string{"f.d2"}})
+		s = append(s, c48Scn{Name: fmt.Sprintf("fmt-%dB", n), Thorough: n == 4095 || n == 1<<20, Cmd: "fmt", Files: map[string]string{"f.d2": c48FmtInput(n)}, Args: []string{"fmt", "f.d2"}, Targets: []string{"f.d2"}})
 	}
 	s = append(s,
-		c48Scn{Name: "fmt-shrinking", Cmd: "fmt", Files: map[string]string{"f.d2": "a -> b\n" + strings.Repeat("\n", 9000) + "c -> d\n"}, Args: []string{"fmt", "f.d2"}, Targets: []string{"f.d2"}},
+		c48Scn{Name: "fmt-shrinking", Thorough: true, Cmd: "fmt", Files: map[string]string{"f.d2": "a -> b\n" + strings.Repeat("\n", 9000) + "c -> d\n"}, Args: []string{"fmt", "f.d2"}, Targets: []string{"f.d2"}},
 		c48Scn{Name: "fmt-two-files", Cmd: "fmt", Files: map[string]string{"f.d2": c48FmtInput(100), "g.d2": c48FmtInput(5000)}, Args: []string{"fmt", "f.d2", "g.d2"}, Targets: []string{"f.d2", "g.d2"}},
 		c48Scn{Name: "fmt-dir-arg", Cmd: "fmt", Files: map[string]string{"proj/index.d2": c48FmtInput(300)}, Args: []string{"fmt", "proj"}, Targets: []string{"proj/index.d2"}},
 		c48Scn{Name: "svg-2-shapes-old-small", Cmd: "render-svg", Files: map[string]string{"in.d2": "x -> y\n", "out.svg": c48Old(33)}, Args: []string{"in.d2", "out.svg"}, Targets: []string{"out.svg"}},
 		c48Scn{Name: "svg-25-shapes-old-1MiB", Cmd: "render-svg", Files: map[string]string{"in.d2": c48Diagram(25), "out.svg": c48Old(1 << 20)}, Args: []string{"in.d2", "out.svg"}, Targets: []string{"out.svg"}},
-		c48Scn{Name: "svg-default-output-name", Cmd: "render-svg", Files: map[string]string{"in.d2": c48Diagram(4), "in.svg": c48Old(4096)}, Args: []string{"in.d2"}, Targets: []string{"in.svg"}},
-		c48Scn{Name: "svg-subdir-sketch", Cmd: "render-svg", Files: map[string]string{"in.d2": c48Diagram(6), "o/out.svg": c48Old(70000)}, Args: []string{"--sketch", "in.d2", "o/out.svg"}, Targets: []string{"o/out.svg"}},
-		c48Scn{Name: "svg-root-board-of-multiboard", Cmd: "render-svg", Files: map[string]string{"in.d2": "a -> b\nlayers: {l: {c}}\n", "out.svg": c48Old(500)}, Args: []string{"--target", "", "in.d2", "out.svg"}, Targets: []string{"out.svg"}},
+		c48Scn{Name: "svg-default-output-name", Thorough: true, Cmd: "render-svg", Files: map[string]string{"in.d2": c48Diagram(4), "in.svg": c48Old(4096)}, Args: []string{"in.d2"}, Targets: []string{"in.svg"}},
+		c48Scn{Name: "svg-subdir-sketch", Thorough: true, Cmd: "render-svg", Files: map[string]string{"in.d2": c48Diagram(6), "o/out.svg": c48Old(70000)}, Args: []string{"--sketch", "in.d2", "o/out.svg"}, Targets: []string{"o/out.svg"}},
+		c48Scn{Name: "svg-root-board-of-multiboard", Thorough: true, Cmd: "render-svg", Files: map[string]string{"in.d2": "a -> b\nlayers: {l: {c}}\n", "out.svg": c48Old(500)}, Args: []string{"--target", "", "in.d2", "out.svg"}, Targets: []string{"out.svg"}},
 		c48Scn{Name: "txt-2-shapes-old-small", Cmd: "render-txt", Files: map[string]string{"in.d2": "x -> y\n", "out.txt": "old text\n"}, Args: []string{"in.d2", "out.txt"}, Targets: []string{"out.txt"}},
 		c48Scn{Name: "txt-12-shapes-old-64KiB", Cmd: "render-txt", Files: map[string]string{"in.d2": c48Diagram(12), "out.txt": c48Old(65537)}, Args: []string{"in.d2", "out.txt"}, Targets: []string{"out.txt"}},
-		c48Scn{Name: "txt-ascii-standard", Cmd: "render-txt", Files: map[string]string{"in.d2": c48Diagram(3), "out.txt": c48Old(4095)}, Args: []string{"--ascii-mode", "standard", "in.d2", "out.txt"}, Targets: []string{"out.txt"}},
+		c48Scn{Name: "txt-ascii-standard", Thorough: true, Cmd: "render-txt", Files: map[string]string{"in.d2": c48Diagram(3), "out.txt": c48Old(4095)}, Args: []string{"--ascii-mode", "standard", "in.d2", "out.txt"}, Targets: []string{"out.txt"}},
 		c48Scn{Name: "svg-150-shapes", Thorough: true, Cmd: "render-svg", Files: map[string]string{"in.d2": c48Diagram(150), "out.svg": c48Old(65537)}, Args: []string{"in.d2", "out.svg"}, Targets: []string{"out.svg"}},
 		c48Scn{Name: "txt-60-shapes", Thorough: true, Cmd: "render-txt", Files: map[string]string{"in.d2": c48Diagram(60), "out.txt": c48Old(100)}, Args: []string{"in.d2", "out.txt"}, Targets: []string{"out.txt"}},
 		c48Scn{Name: "fmt-8MiB", Thorough: true, Cmd: "fmt", Files: map[string]string{"f.d2": c48FmtInput(8 << 20)}, Args: []string{"fmt", "f.d2"}, Targets: []string{"f.d2"}},
@@ -471,6 +471,7 @@ func c48Where(w c48Wit, ref *c48Ref) string {
 
 func c48Solo(p *eng.Solo) {
 	defer os.RemoveAll(c48Base())
+	t0 := time.Now()
 	if _, err := buildD2("C48"); err != nil {
 		p.HarnessErr = err.Error()
 		return
@@ -485,10 +486,12 @@ func c48Solo(p *eng.Solo) {
 			scns = append(scns, s)
 		}
 	}
+	p.Coverage["build_s"] = time.Since(t0).Seconds()
+	t0 = time.Now()
 	// phase 1: reference runs (parallel)
 	var herr []string
 	var mu sync.Mutex
-	parallel(len(scns), 8, nil, func(i int) {
+	parallel(len(scns), 0, nil, func(i int) {
 		r := c48GetRef(&scns[i])
 		if r.err != nil {
 			mu.Lock()
@@ -501,6 +504,8 @@ func c48Solo(p *eng.Solo) {
 		p.HarnessErr = strings.Join(herr, "\n")
 		return
 	}
+	p.Coverage["reference_runs_s"] = time.Since(t0).Seconds()
+	t0 = time.Now()
 	// phase 2: every crash point
 	var wits []c48Wit
 	perScn := []any{}
@@ -531,7 +536,7 @@ func c48Solo(p *eng.Solo) {
 	var evals, nontriv int64
 	outcomes := map[string]int{}
 	samples := []any{}
-	done := parallel(len(wits), 12, p.Expired, func(i int) {
+	done := parallel(len(wits), 0, p.Expired, func(i int) {
 		b, _ := json.Marshal(wits[i])
 		var res eng.Res
 		func() {
@@ -574,6 +579,7 @@ func c48Solo(p *eng.Solo) {
 	for k, v := range outcomes {
 		oc[k] = v
 	}
+	p.Coverage["crash_runs_s"] = time.Since(t0).Seconds()
 	p.Coverage["evaluations"] = evals
 	p.Coverage["distinct_nontrivial"] = nontriv
 	p.Coverage["samples"] = samples
